@@ -1,0 +1,60 @@
+//go:build verif
+
+package hash
+
+import (
+	"reflect"
+
+	"github.com/sergeymakinen/go-crypt/internal/hashutil"
+)
+
+// VerifHashutilAlphabet returns, for the hashutil encoding named by which ("hash" or "base64"),
+// the character of every index 0..255 (0xFF when absent) and the index of every byte.
+func VerifHashutilAlphabet(which string) (enc [256]byte, dec [256]byte) {
+	e := hashutil.HashEncoding
+	if which == "base64" {
+		e = hashutil.Base64Encoding
+	}
+	for i := 0; i < 256; i++ {
+		enc[i] = e.Encode(byte(i))
+		dec[i] = e.Decode(byte(i))
+	}
+	return
+}
+
+// VerifHashutilRand draws n characters with hashutil's Rand.
+func VerifHashutilRand(which string, n int) []byte {
+	e := hashutil.HashEncoding
+	if which == "base64" {
+		e = hashutil.Base64Encoding
+	}
+	return e.Rand(n)
+}
+
+// VerifCacheTypes returns the keys of the type cache.
+func VerifCacheTypes() []reflect.Type {
+	var ts []reflect.Type
+	typeCache.Range(func(k, _ interface{}) bool {
+		ts = append(ts, k.(reflect.Type))
+		return true
+	})
+	return ts
+}
+
+// VerifTypeInfoAliased reports whether two successive getTypeInfo results for t share storage
+// with the cached entry (they must not: callers set the Struct field on the result).
+func VerifTypeInfoAliased(t reflect.Type) bool {
+	a, err := getTypeInfo(t)
+	if err != nil {
+		return false
+	}
+	b, _ := getTypeInfo(t)
+	if a == b {
+		return true
+	}
+	f, ok := typeCache.Load(indirectType(t))
+	if !ok {
+		f, ok = typeCache.Load(t)
+	}
+	return ok && (f.(*typeInfo) == a || f.(*typeInfo) == b)
+}
